@@ -13,7 +13,7 @@ import sys, os, json, math, subprocess, itertools, time
 from fractions import Fraction
 import numpy as np
 
-sys.path[:0] = ['/repo', '/verif']
+sys.path[:0] = [__import__('os').environ.get('DEEPROB_REPO', '/repo'), __import__('os').path.dirname(__import__('os').path.dirname(__import__('os').path.dirname(__import__('os').path.abspath(__file__))))]
 from harness.spn import rand_spn, export_net, domain_of
 from harness.common import parse_q
 from deeprob.spn.structure.node import assign_ids
